@@ -1,3 +1,48 @@
 (* Props/C04.v -- property theorems only *)
 From Coq Require Import ZArith.
-From Falcon Require Import Base.Res IL.Const IL.ConstSpec IL.Expr IL.ExprSpec.
+From Falcon Require Import Base.Res IL.Const IL.ConstSpec IL.Expr IL.ExprSpec IL.ConstProofs IL.ExprProofs.
+Local Open Scope Z_scope.
+
+(* 1. every binary operator, every width: the model of Constant is the bit-vector specification
+      (sp_bin encodes the DivideByZero cases) *)
+Theorem c_bin_spec : forall o w a b, 1 <= w < 2 ^ 64 -> inr w a -> inr w b ->
+  c_bin o (mkc w a) (mkc w b) = sp_bin o w a b.
+Proof. exact ExprProofs.c_bin_spec. Qed.
+Print Assumptions c_bin_spec.
+
+(* the usize bound on the width is needed by the three shifts only *)
+Theorem c_bin_spec_noshift : forall o w a b, is_shift o = false -> 1 <= w -> inr w a -> inr w b ->
+  c_bin o (mkc w a) (mkc w b) = sp_bin o w a b.
+Proof. exact ExprProofs.c_bin_spec_noshift. Qed.
+Print Assumptions c_bin_spec_noshift.
+
+(* 2. sort errors and extensions *)
+Theorem c_bin_sort_error : forall o a b, cbits a <> cbits b -> c_bin o a b = Err ESort.
+Proof. exact ExprProofs.c_bin_sort_error. Qed.
+Print Assumptions c_bin_sort_error.
+
+Theorem c_ext_spec : forall o bits w a, 1 <= w -> 1 <= bits -> inr w a ->
+  c_ext o bits (mkc w a) = sp_ext o bits (mkc w a).
+Proof. exact ExprProofs.c_ext_spec. Qed.
+Print Assumptions c_ext_spec.
+
+(* 3. the constructor trims; results are in range *)
+Theorem new_big_spec : forall v w, 0 <= w -> new_big v w = mkc w (U w v).
+Proof. exact ConstProofs.new_big_spec. Qed.
+Print Assumptions new_big_spec.
+
+Theorem c_bin_inr : forall o w a b c, 0 <= w -> c_bin o (mkc w a) (mkc w b) = Ok c ->
+  cbits c = (if is_cmp o then 1 else w) /\ inr (cbits c) (cval c).
+Proof. exact ExprProofs.c_bin_inr. Qed.
+Print Assumptions c_bin_inr.
+
+Theorem c_ext_inr : forall o bits a c, 0 <= bits -> c_ext o bits a = Ok c ->
+  cbits c = bits /\ inr (cbits c) (cval c).
+Proof. exact ExprProofs.c_ext_inr. Qed.
+Print Assumptions c_ext_inr.
+
+(* 4. no operand value makes an operator panic (only a zero width can) *)
+Theorem no_panic : forall w a b, 1 <= w ->
+  (forall o, c_bin o (mkc w a) (mkc w b) <> Panic) /\ (forall o bits, c_ext o bits (mkc w a) <> Panic).
+Proof. exact ExprProofs.no_panic. Qed.
+Print Assumptions no_panic.
